@@ -60,7 +60,7 @@ var (
 	stEntries = []string{"main", "api"}
 	// names the request validation accepts and that contain separators or glob characters
 	stAppsP    = []string{"a", "ab", "a_b", "a_b_c", "b"}
-	stEntriesP = []string{"b", "bc", "c", "b-c"}
+	stEntriesP = []string{"b", "bc", "c", "b-c", "_b", "b_c"} // the last two must be refused by request validation
 	stNodesP   = []string{"n1", "n10", "n1x", "n"}
 	stAppsS    = []string{"a", "a_b", "a/b", "b"}
 	stEntriesS = []string{"b", "c", "b/c"}
@@ -307,6 +307,14 @@ func (storeH) Execute(c *Case, res *Result) {
 		for i, op := range ops {
 			opIndex = i
 			cur = fmt.Sprintf("op#%d %s", i, string(c.Ops[i]))
+			if prop == "C24" && op.Kind == "add_workload" {
+				// "for every name the API accepts": the real request validation decides
+				do := &coretypes.DeployOptions{Name: op.App, Podname: "p0", Image: "img", Count: 1, Entrypoint: &coretypes.Entrypoint{Name: op.Entry}}
+				if err := do.Validate(); err != nil {
+					res.Probes["name_refused_by_validation"]++
+					continue
+				}
+			}
 			if op.Kind == "advance" {
 				time.Sleep(time.Duration(op.Secs)*time.Second + offGrid(i%7))
 				rsrv.Sync()
